@@ -23,6 +23,11 @@ NAMES = ['', 'a', 'b']
 INFOS = ['', 'info']
 
 
+# thorough tier: coverage-guided campaigns on top of the random ones
+ATHERIS = [{'impl': 'py', 'n': 20000, 'name': 'py-atheris'},
+           {'impl': 'c', 'n': 20000, 'name': 'c-atheris'}]
+
+
 def configs(tier, seed):
     n = 1000 if tier == 'quick' else 15000
     return [{'name': impl + '-components', 'impl': impl, 'mode': 'hyp', 'n': n}
